@@ -365,6 +365,14 @@ def run(ctx: Any, prog: Program) -> None:
             defs_ = [a.value for a in ast.walk(parse) if isinstance(a, ast.Assign) and any(isinstance(t, ast.Name) and t.id == e.id for t in a.targets)]
             if len(defs_) == 1:
                 return _alts(defs_[0])
+            if not defs_:
+                # a module-level constant (`_SKIPPED_BLOCK_NAME = '<skipped>'`)
+                try:
+                    g_ = kv.global_assign(e.id)
+                except Exception:
+                    g_ = None
+                if isinstance(g_, ast.Constant):
+                    return [g_]
         return [e]
     for ns in name_stores:
         bad = [a for a in _alts(ns.value) if not (isinstance(a, ast.Name) and a.id in tok_vars) and not isinstance(a, ast.Constant)]          # literals: the root, the placeholder of a skipped block
